@@ -137,6 +137,13 @@ func c13(c *wk.Ctx) {
 	}{
 		{"whitelist", func() { conf.Options = conf.Configuration{FilterKeyWhitelist: []string{"ok:", "also-ok"}} }, &reffilter.Config{KeyWhite: []string{"ok:", "also-ok"}}},
 		{"blacklist", func() { conf.Options = conf.Configuration{FilterKeyBlacklist: []string{"no:", "never"}} }, &reffilter.Config{KeyBlack: []string{"no:", "never"}}},
+		// lists whose first prefixes are longer than the keys they are tried on (every prefix of a list gets its turn)
+		{"whitelist-long-first", func() {
+			conf.Options = conf.Configuration{FilterKeyWhitelist: []string{"also-ok-but-much-longer-than-any-key", "ok:k0-and-more", "ok:"}}
+		}, &reffilter.Config{KeyWhite: []string{"also-ok-but-much-longer-than-any-key", "ok:k0-and-more", "ok:"}}},
+		{"blacklist-long-first", func() {
+			conf.Options = conf.Configuration{FilterKeyBlacklist: []string{"never-ever-and-longer-than-any-key", "no:k1-and-more", "no:"}}
+		}, &reffilter.Config{KeyBlack: []string{"never-ever-and-longer-than-any-key", "no:k1-and-more", "no:"}}},
 	}
 	sampled := 0
 	for _, cfg := range cfgs {
